@@ -13,7 +13,7 @@ def cases_for(ctx, quick_bulk, thorough_bulk, stress=False, exhaustive=None):
     return out
 
 
-def run(ctx, cases, versions_of, project, family_prefix=""):
+def run(ctx, cases, versions_of, project, family_prefix="", in_domain=None):
     """cases: [(family, bytes)]; versions_of(family, i) -> list of version hex; project(answer tokens) -> comparable."""
     reqs, meta = [], []
     for i, (fam, s) in enumerate(cases):
@@ -34,7 +34,8 @@ def run(ctx, cases, versions_of, project, family_prefix=""):
         ctx.dist["model=" + tb[0]] += 1
         ctx.dist["len<=%d" % (0 if not s else 1 << (len(s) - 1).bit_length())] += 1
         if pa != pb:
-            ctx.disagree(family_prefix + fam, "script " + (req if len(req) < 400 else req[:400] + "…(%d bytes)" % len(s)), a[:300], b[:300], True, {"full_request": req if len(req) < 20000 else None})
+            ind = True if in_domain is None else in_domain(s, ta, tb)
+            ctx.disagree(family_prefix + fam, "script " + (req if len(req) < 400 else req[:400] + "…(%d bytes)" % len(s)), a[:300], b[:300], ind, {"full_request": req if len(req) < 20000 else None})
         elif nontrivial and len(ctx.samples) < 6 and ctx.rnd.random() < 0.002:
             ctx.add_sample({"request": "script " + req[:200], "impl": a[:200], "model": b[:200]})
     if not ctx.samples:
